@@ -11,6 +11,7 @@ import KvarnModel.Drv.C06
 import KvarnModel.Drv.C03
 import KvarnModel.Drv.C05
 import KvarnModel.Drv.C13
+import KvarnModel.Drv.C17
 /-!
 Line-protocol driver: `<group>.<fn> <arg> …` per line on stdin, one canonical line on stdout.
 Unknown or ill-formed lines answer `bad-op` — never a default.
@@ -35,6 +36,7 @@ def dispatchLine (line : String) : String :=
       | ["c03", f] => Drv.C03.handle' (f :: args)
       | ["c05", f] => Drv.C05.handle (f :: args)
       | ["c13", f] => Drv.C13.handle (f :: args)
+      | ["c17", f] => Drv.C17.handle' (f :: args)
       | _ => none
     r.getD "bad-op"
 
